@@ -870,6 +870,18 @@ theorem pres_unlinkOneshot (st : St) (a : Nat) : Pres st (unlinkOneshot st a) :=
           refine (Grow.trans (grow_setW _ a _ ?_) (grow_free _ a)).pres
           rw [getW_setListOf]
 
+theorem pres_unlinkOneshotSaved (st : St) (a : Nat) (t : WType) : Pres st (unlinkOneshotSaved st a t) := by
+  unfold unlinkOneshotSaved
+  split
+  · exact Pres.refl _
+  · split
+    · exact (grow_fail _ _).pres
+    · split
+      · exact Pres.refl _
+      · refine (pres_setListOf_erase st t _ a rfl).trans ?_
+        refine (Grow.trans (grow_setW _ a _ ?_) (grow_free _ a)).pres
+        rw [getW_setListOf]
+
 theorem pres_fireIf (st : St) (c : Prop) [Decidable c] (k : Int) (flags : Nat) (info : Info) :
     Pres st (if c then fireUser st k flags info else st) := by
   split
@@ -886,7 +898,9 @@ theorem pres_invokeWatch (st : St) (a : Nat) (flags : Nat) (info : Info) : Pres 
     · exact (grow_fail _ _).pres
     · split
       · exact hf
-      · exact hf.trans (pres_unlinkOneshot _ a)
+      · split
+        · exact hf.trans (pres_unlinkOneshotSaved _ a _)
+        · exact hf.trans (pres_unlinkOneshot _ a)
 
 theorem grow_waitpidV (st : St) (pid : Int) : Grow st (waitpidV st pid).st := by
   unfold waitpidV
